@@ -6,17 +6,19 @@ EXTENDS Archive, Json
 
 CONSTANTS SizeEntries     \* files besides Chart.yaml in a size stream
 
-Cases == CasesExtract \cup CasesExpand \cup CasesExpandName \cup CasesLoad \cup CasesSize(SizeEntries)
-         \cup CasesLock \cup CasesTwo
+\* the case space: the families are disjoint (field fam), so they are concatenated rather than united
+\* (TLC's union of two large enumerated sets is quadratic); a case is addressed by its index = its id
+CaseSeq == SetToSeq(CasesLock) \o SetToSeq(CasesTwo) \o SetToSeq(CasesSize(SizeEntries)) \o SetToSeq(CasesExpandName)
+           \o SetToSeq(CasesLoad) \o SetToSeq(CasesExtract) \o SetToSeq(CasesExpand)
 
 VARIABLE s
 
-Init == \E c \in Cases : s = Start(c)
+Init == \E i \in 1..Len(CaseSeq) : s = Start(CaseSeq[i])
 Next == s.pc # "done" /\ s' = Step(s)
 Spec == Init /\ [][Next]_s
 
-InvConfined   == Confined(s) \/ KnownL11(s)
-InvConfinedAlways == ConfinedAlways(s) \/ KnownL11(s)
+InvConfined   == Confined(s)
+InvConfinedAlways == ConfinedAlways(s)
 InvNames      == NamesClean(s)
 InvSizeReject == SizeRejected(s)
 InvSizeBound  == SizeBounded(s)
@@ -24,15 +26,14 @@ InvSizeBound  == SizeBounded(s)
 InvRun        == s.pc = "done" => Run(s.c) = s
 
 (* ----- export ----------------------------------------------------------- *)
-CaseSeq == SetToSeq(Cases)
 PathsOf(t) == SetToSeq({[p |-> x.p, t |-> x.t] : x \in t})
 Exported(i) ==
   LET c == CaseSeq[i]  r == Run(c) IN
   [id |-> i, fam |-> c.fam, op |-> c.op, stream |-> c.stream, layout |-> c.layout, cname |-> c.cname, api |-> c.api,
    lock |-> c.lock, flim |-> FLim, tlim |-> TLim,
    expect |-> "error-or-confined",
-   spec |-> [err |-> r.res = "err", touched |-> PathsOf(r.w.touched), names |-> SetToSeq(r.names), kf |-> SetToSeq(r.kf)]]
+   spec |-> [err |-> r.res = "err", touched |-> PathsOf(r.w.touched), names |-> SetToSeq(r.names)]]
 Export == ndJsonSerialize("c16_cases.ndjson", [i \in 1..Len(CaseSeq) |-> Exported(i)])
 ASSUME Export
-ASSUME PrintT(<<"C16CASES", Cardinality(Cases)>>)
+ASSUME PrintT(<<"C16CASES", Len(CaseSeq)>>)
 =============================================================================
